@@ -132,6 +132,9 @@ func (e *Engine) builtin(s *State, f *Frame, name string, args []Value, site ssa
 			e.errf("unsafe.Slice on non-byte pointer")
 		}
 		return &SliceV{Base: &Pointer{Obj: p.Obj, Path: p.Path}, Off: p.BIdx, Len: n, Cap: n}
+	case "@swap":
+		// engine-native element swap used by the sort.Slice model; args: i, j (bound slice in site-less call)
+		e.errf("@swap must be called through FuncV bindings")
 	case "ssa:wrapnilchk":
 		return args[0]
 	case "print", "println":
@@ -269,7 +272,7 @@ var interpPkgPrefixes = []string{
 	"encoding/binary", "math/bits", "errors", "bytes", "strings", "net/netip", "unicode/utf8", "unicode",
 	"sort", "slices", "cmp", "io", "strconv", "internal/bytealg", "internal/byteorder", "internal/stringslite",
 	"internal/itoa", "math", "time", "context", "net", "net/url", "container/list", "sync/atomic",
-	"golang.org/x/exp", "encoding/base64", "internal/godebug", "unique", "maps", "iter", "bufio", "path",
+	"golang.org/x/exp", "golang.org/x/time/rate", "encoding/base64", "internal/godebug", "unique", "maps", "iter", "bufio", "path",
 }
 
 func (e *Engine) allowInterp(fn *ssa.Function) bool {
